@@ -182,6 +182,11 @@ def c02_one(res, g, drv_line_out=None):
             for t in teams:
                 for p in t:
                     p.id = t[0].id
+        elif shared == "row-numbers":
+            # ids assigned by the application: row numbers 0, 1, 2, ... and "" are ids like any other (unique here)
+            alt = [0, ""] if len(flat) % 2 else [0]
+            for k_, p in enumerate(flat):
+                p.id = alt[k_] if k_ < len(alt) else k_
         res.count("shared_id_games_" + shared)
     passed = [list(t) for t in teams]
     snap = [[(p.id, p.name, p.mu, p.sigma) for p in t] for t in teams]
@@ -251,15 +256,16 @@ def c02_one(res, g, drv_line_out=None):
 def c02_games(res, rng, n):
     games = []
     for _ in range(n):
-        g = gen_game(rng, stratum=rng.choice(["typical", "wide", "equalsize"]))
-        # distinct priors per player so that any misplacement shows
+        st_ = rng.choice(["typical", "wide", "equalsize", "same-sigma"])
+        g = gen_game(rng, stratum=st_)
+        # distinct priors per player so that any misplacement shows (team-mates sharing one sigma exactly keep it: only mu is spread)
         k = 0
         for t in g["teams"]:
             for j in range(len(t)):
-                t[j] = (t[j][0] + 0.37 * k * g["beta"] / 4, t[j][1] * (1 + 0.011 * k))
+                t[j] = (t[j][0] + 0.37 * k * g["beta"] / 4, t[j][1] * (1 + 0.011 * k) if st_ != "same-sigma" else t[j][1])
                 k += 1
-        if rng.random() < 0.15:
-            g["_shared_ids"] = rng.choice(["first-players", "first-players", "everyone", "team-mates"])
+        if rng.random() < 0.22:
+            g["_shared_ids"] = rng.choice(["first-players", "first-players", "everyone", "team-mates", "row-numbers", "row-numbers"])
             if rng.random() < 0.5:
                 g["ls"] = True          # the sigma cap is looked up per player
         if rng.random() < 0.25:
